@@ -10,7 +10,7 @@ ESC_ALPHABET = b"\\'\"xnrtbfva0178 9Ag\n\t\r\x00\x7f\xff\xc3\xa9"
 class Check(PropertyCheck):
     prop = "C51"
     design_ref = "§5 C51"
-    level_text = ("Lean theorems roundtrip / output_clean / output_no_control about the per-byte model of "
+    level_text = ("Lean theorems roundtrip / output_clean / output_no_control / enc_injective / enc_append / edit_roundtrip about the per-byte model of "
                   "bytes_to_escaped_str and the codecs.escape_decode model, for ALL byte strings and the four option "
                   "pairs (induction over the string); model tied to the code by exhaustive comparison on all strings "
                   "of length <= 2 (x4 options) plus random long strings, and the decoder on random escape soups.")
